@@ -390,8 +390,12 @@ func decodeByteArray(s *Stream, val reflect.Value) error {
 		if vlen > 1 {
 			return &decodeError{msg: "input string too short", typ: val.Type()}
 		}
-		bv, _ := s.Uint()
-		val.Index(0).SetUint(bv)
+		// The byte is its own encoding and is already buffered by Kind.
+		// (Stream.Uint must not be used here: it rejects 0x00 as a
+		// non-canonical integer without consuming it, and the value
+		// ahead would be decoded a second time by the next element.)
+		val.Index(0).SetUint(uint64(s.byteval))
+		s.kind = -1 // rearm Kind
 	case String:
 		if uint64(vlen) < size {
 			return &decodeError{msg: "input string too long", typ: val.Type()}
